@@ -1,4 +1,4 @@
-CONSTANTS Conns <- C2  Reqs <- R4  ConnOf <- CO4  N = 0  Q = 1  Calls <- K2  LateRelease = TRUE  RT = FALSE  SelfNotify = TRUE  Idle = FALSE  EarlyDec = FALSE
+CONSTANTS Conns <- C2  Reqs <- R3  ConnOf <- CO3  N = 1  Q = 1  Calls <- K1  LateRelease = TRUE  RT = TRUE  SelfNotify = TRUE  Idle = TRUE  EarlyDec = FALSE
 SPECIFICATION Spec
 INVARIANTS TypeOK ReadImpliesAnswered NoLateWrite ReturnsWhenDrained Notified
 PROPERTIES ReadGetsAnswered ShutdownDrains
